@@ -13,12 +13,29 @@ import (
 func c09Mqtt(c *core.Ctx, lim *c09limiter, fns []*c09fn) {
 	c09Wrappers(c, lim, fns)
 
-	fa := fn(c, mq, "Limiter", "acquirePermission")
+	// role: the method of Limiter that charges the library limiters
+	var fa *flow.Func
+	if cands := funcsByRole(c, mq, func(g *flow.Func, fd *ast.FuncDecl) bool {
+		if fd.Recv == nil || c09recv(g) == nil || !strings.HasSuffix(c09recv(g).Type().String(), "/"+mq+".Limiter") {
+			return false
+		}
+		for _, call := range calls(fd.Body, false) {
+			if c09calleeIs(g, call, "(*"+c09lib+".RateLimiter).AcquirePermission", "(*"+c09lib+".RateLimiter).AcquireNPermission", "(*"+c09lib+".MultiRateLimiter).AcquirePermission") {
+				return true
+			}
+		}
+		return false
+	}); len(cands) == 1 {
+		fa = cands[0]
+		c.Count("functions_analysed", 1)
+	} else {
+		fa = fn(c, mq, "Limiter", "acquirePermission")
+	}
 	pkg := c.Prog.Pkg(mq)
 	if fa == nil || pkg == nil {
 		return
 	}
-	cons := fname(mq, "Limiter", "acquirePermission")
+	cons := fname(mq, "Limiter", fa.Node.(*ast.FuncDecl).Name.Name)
 	limiterT := namedType(c, mq, "Limiter")
 	if limiterT == nil {
 		return
@@ -64,13 +81,13 @@ func c09Mqtt(c *core.Ctx, lim *c09limiter, fns []*c09fn) {
 	for _, call := range calls(fa.Body, false) {
 		var charges []string
 		switch {
-		case calleeIs(fa, call, "(*"+c09lib+".RateLimiter).AcquirePermission"):
+		case c09calleeIs(fa, call, "(*"+c09lib+".RateLimiter).AcquirePermission"):
 			charges = []string{"RequestRate"}
-		case calleeIs(fa, call, "(*"+c09lib+".RateLimiter).AcquireNPermission"):
+		case c09calleeIs(fa, call, "(*"+c09lib+".RateLimiter).AcquireNPermission"):
 			if len(call.Args) == 1 {
 				charges = []string{unit(call.Args[0])}
 			}
-		case calleeIs(fa, call, "(*"+c09lib+".MultiRateLimiter).AcquirePermission"):
+		case c09calleeIs(fa, call, "(*"+c09lib+".MultiRateLimiter).AcquirePermission"):
 			if len(call.Args) == 1 {
 				if cl, ok := c09resolve(fa, call.Args[0]).(*ast.CompositeLit); ok {
 					for _, el := range cl.Elts {
@@ -83,11 +100,11 @@ func c09Mqtt(c *core.Ctx, lim *c09limiter, fns []*c09fn) {
 		default:
 			continue
 		}
-		sel, ok := ast.Unparen(call.Fun).(*ast.SelectorExpr)
-		if !ok {
+		_, recvX := c09callee(fa, call)
+		if recvX == nil {
 			continue
 		}
-		s := &site{call: call, recv: sel.X, charges: charges, field: c09fieldOf(fa, c09resolve(fa, sel.X))}
+		s := &site{call: call, recv: recvX, charges: charges, field: c09fieldOf(fa, c09resolve(fa, recvX))}
 		if as, ok := pm[call].(*ast.AssignStmt); ok && len(as.Rhs) == 1 && len(as.Lhs) >= 2 {
 			if id, ok := as.Lhs[0].(*ast.Ident); ok && id.Name != "_" {
 				s.perm = c09obj(fa, id)
@@ -199,8 +216,34 @@ func c09Mqtt(c *core.Ctx, lim *c09limiter, fns []*c09fn) {
 	for i, s := range sites {
 		idx[s.call] = i
 	}
+	named := c09resultsOf(fa)
 	res := analyze(c, fa, flow.Config{
 		NoHavoc: true,
+		OnNode: func(st *flow.State, n ast.Node) {
+			named.onNode(st, n)
+			// a later assignment to the variable holding a limiter's verdict replaces the verdict
+			if as, ok := n.(*ast.AssignStmt); ok {
+				fromSite := false
+				for _, r := range as.Rhs {
+					if call, ok := ast.Unparen(r).(*ast.CallExpr); ok {
+						if _, isSite := idx[call]; isSite {
+							fromSite = true
+						}
+					}
+				}
+				for _, l := range as.Lhs {
+					id, ok := ast.Unparen(l).(*ast.Ident)
+					if !ok {
+						continue
+					}
+					for _, s := range sites {
+						if s.perm != nil && c09obj(fa, id) == s.perm {
+							st.Set("ev:overwritten", c09val(!fromSite))
+						}
+					}
+				}
+			}
+		},
 		OnCall: func(st *flow.State, call *ast.CallExpr, callee types.Object, deferred bool) {
 			if i, ok := idx[call]; ok {
 				st.Set(sprintf("ev:acq:%d", i), flow.True)
@@ -214,7 +257,11 @@ func c09Mqtt(c *core.Ctx, lim *c09limiter, fns []*c09fn) {
 	why := ""
 	exits := 0
 	for _, ex := range res.Exits {
-		if ex.Kind != flow.ExitReturn || ex.Return == nil || len(ex.Return.Results) != 1 {
+		if ex.Kind != flow.ExitReturn {
+			continue
+		}
+		r := named.expr(ex, 0)
+		if r == nil {
 			continue
 		}
 		exits++
@@ -224,10 +271,9 @@ func c09Mqtt(c *core.Ctx, lim *c09limiter, fns []*c09fn) {
 				charged = append(charged, s)
 			}
 		}
-		r := ast.Unparen(ex.Return.Results[0])
 		switch len(charged) {
 		case 0:
-			if !c09constIs(fa, r, "true") {
+			if v, known := named.constant(ex, 0); !known || v.ExactString() != "true" {
 				bad, why = ex, "no limiter was charged but the result is not the constant true"
 			}
 			for _, s := range sites {
@@ -237,7 +283,7 @@ func c09Mqtt(c *core.Ctx, lim *c09limiter, fns []*c09fn) {
 			}
 		case 1:
 			id, ok := r.(*ast.Ident)
-			if !ok || charged[0].perm == nil || c09obj(fa, id) != charged[0].perm {
+			if !ok || charged[0].perm == nil || c09obj(fa, id) != charged[0].perm || ex.State.Is("ev:overwritten", flow.True) {
 				bad, why = ex, "the result is not the verdict of the limiter that was charged ("+types.ExprString(charged[0].recv)+"): rejected packets are admitted (or admitted ones dropped)"
 			}
 		default:
@@ -351,4 +397,11 @@ func c09Wrappers(c *core.Ctx, lim *c09limiter, fns []*c09fn) {
 		}
 		c.Check(ok, "R-C09-4", label, pos(c, inner[0]), "delegates to the acquire function of the receiver with "+what+" on every path", why, wit...)
 	}
+}
+
+func c09val(b bool) flow.Val {
+	if b {
+		return flow.True
+	}
+	return flow.False
 }
